@@ -92,6 +92,7 @@ NetworkAddress = Any
 
 # frame sizes
 ACK_FRAME_CAPACITY = 64  # FIXME: this is arbitrary!
+MAX_ACK_RANGES = 32
 APPLICATION_CLOSE_FRAME_CAPACITY = 1 + 2 * UINT_VAR_MAX_SIZE  # + reason length
 CONNECTION_LIMIT_FRAME_CAPACITY = 1 + UINT_VAR_MAX_SIZE
 HANDSHAKE_DONE_FRAME_CAPACITY = 1
@@ -3279,9 +3280,18 @@ class QuicConnection:
         ack_delay = now - space.largest_received_time
         ack_delay_encoded = int(ack_delay * 1000000) >> self._local_ack_delay_exponent
 
+        # Bound the number of ranges (forget the oldest ones) and reserve the
+        # space the frame really needs: a peer which leaves gaps in its packet
+        # numbers must not make the frame outgrow the packet.
+        while len(space.ack_queue) > MAX_ACK_RANGES:
+            oldest = space.ack_queue.shift()
+            if oldest.stop > space.ack_queue_floor:
+                space.ack_queue_floor = oldest.stop
+        scratch = Buffer(capacity=32 + 16 * len(space.ack_queue))
+        push_ack_frame(scratch, space.ack_queue, ack_delay_encoded)
         buf = builder.start_frame(
             QuicFrameType.ACK,
-            capacity=ACK_FRAME_CAPACITY,
+            capacity=max(ACK_FRAME_CAPACITY, 1 + scratch.tell()),
             handler=self._on_ack_delivery,
             handler_args=(space, space.largest_received_packet),
         )
